@@ -27,6 +27,8 @@ const (
 	mvInt
 	mvStr
 	mvList
+	mvRec     // a record: named fields (a struct value the rule describes)
+	mvRecList // a list of records
 )
 
 type mval struct {
@@ -35,6 +37,8 @@ type mval struct {
 	i    int64
 	s    string
 	list []string
+	rec  map[string]mval
+	recs []map[string]mval
 }
 
 func mBool(b bool) mval     { return mval{k: mvBool, b: b} }
@@ -105,10 +109,57 @@ func (ev *miniEval) expr(e ast.Expr) mval {
 				return v
 			}
 		}
+		if _, isPkg := ev.info.Uses[identOf(x.X)].(*types.PkgName); !isPkg {
+			if r := ev.expr(x.X); r.k == mvRec {
+				if v, ok := r.rec[x.Sel.Name]; ok {
+					return v
+				}
+				return mval{}
+			}
+		}
 		if s, ok := constString(ev.info, x); ok {
 			return mStr(s)
 		}
+		if k, ok := constInt(ev.info, x); ok {
+			return mval{k: mvInt, i: k}
+		}
 	case *ast.CompositeLit:
+		// a struct value, or a list of struct values (a small table written in place)
+		if t := ev.info.TypeOf(x); t != nil {
+			if st, isStruct := t.Underlying().(*types.Struct); isStruct {
+				rec := map[string]mval{}
+				for i, el := range x.Elts {
+					if kv, isKV := el.(*ast.KeyValueExpr); isKV {
+						if id, isID := kv.Key.(*ast.Ident); isID {
+							rec[id.Name] = ev.expr(kv.Value)
+						}
+					} else if i < st.NumFields() {
+						rec[st.Field(i).Name()] = ev.expr(el)
+					}
+				}
+				return mval{k: mvRec, rec: rec}
+			}
+			var elemT types.Type
+			switch sl := t.Underlying().(type) {
+			case *types.Slice:
+				elemT = sl.Elem()
+			case *types.Array:
+				elemT = sl.Elem()
+			}
+			if elemT != nil {
+				if _, isStruct := elemT.Underlying().(*types.Struct); isStruct {
+					out := mval{k: mvRecList}
+					for _, el := range x.Elts {
+						v := ev.expr(el)
+						if v.k != mvRec {
+							return mval{}
+						}
+						out.recs = append(out.recs, v.rec)
+					}
+					return out
+				}
+			}
+		}
 		if t := ev.info.TypeOf(x); t != nil && t.String() == "[]string" {
 			var l []string
 			for _, el := range x.Elts {
@@ -196,6 +247,9 @@ func (ev *miniEval) expr(e ast.Expr) mval {
 		if l.k == mvList && i.k == mvInt && i.i >= 0 && int(i.i) < len(l.list) {
 			return mStr(l.list[i.i])
 		}
+		if l.k == mvRecList && i.k == mvInt && i.i >= 0 && int(i.i) < len(l.recs) {
+			return mval{k: mvRec, rec: l.recs[i.i]}
+		}
 	case *ast.CallExpr:
 		return ev.call(x)
 	}
@@ -214,6 +268,9 @@ func (ev *miniEval) call(x *ast.CallExpr) mval {
 					}
 					if v.k == mvStr {
 						return mval{k: mvInt, i: int64(len(v.s))}
+					}
+					if v.k == mvRecList {
+						return mval{k: mvInt, i: int64(len(v.recs))}
 					}
 				}
 			case "append":
@@ -275,6 +332,21 @@ func (ev *miniEval) call(x *ast.CallExpr) mval {
 		case "ContainsFunc":
 			l := ev.expr(x.Args[0])
 			lit, isLit := x.Args[1].(*ast.FuncLit)
+			if l.k == mvRecList && isLit && len(lit.Type.Params.List) == 1 && len(lit.Type.Params.List[0].Names) == 1 {
+				po := ev.info.Defs[lit.Type.Params.List[0].Names[0]]
+				for _, r := range l.recs {
+					ev.env[po] = mval{k: mvRec, rec: r}
+					ctl := ev.block(lit.Body.List)
+					if ctl.kind != 'r' || ctl.ret.k != mvBool {
+						ev.fail("closure of slices.ContainsFunc is not decidable")
+						return mval{}
+					}
+					if ctl.ret.b {
+						return mBool(true)
+					}
+				}
+				return mBool(false)
+			}
 			if l.k == mvList && isLit && len(lit.Type.Params.List) == 1 && len(lit.Type.Params.List[0].Names) == 1 {
 				po := ev.info.Defs[lit.Type.Params.List[0].Names[0]]
 				for _, e := range l.list {
@@ -548,6 +620,23 @@ func (ev *miniEval) stmt(st ast.Stmt, label string) mctl {
 		return ctl
 	case *ast.RangeStmt:
 		l := ev.expr(x.X)
+		if l.k == mvRecList {
+			for i, r := range l.recs {
+				if x.Key != nil {
+					ev.assign(x.Key, mval{k: mvInt, i: int64(i)})
+				}
+				if x.Value != nil {
+					ev.assign(x.Value, mval{k: mvRec, rec: r})
+				}
+				if stop, out := ev.loopCtl(ev.block(x.Body.List), label); stop {
+					return out
+				}
+				if ev.undec != "" {
+					return mctl{}
+				}
+			}
+			return mctl{}
+		}
 		if l.k != mvList {
 			ev.fail("loop over `" + exprStr(x.X) + "`, whose elements are not known")
 			return mctl{}
